@@ -182,6 +182,31 @@ class Files:
         self.note(p)
         return ino_changed, after.st_mtime != before.st_mtime
 
+    def apply_over(self, p, c, lt):
+        """Index checkout (apply with the state database) asked to create p with content c - the old index does not list p,
+        a file is sitting there.  Returns the (ino, mt) changes that really happened."""
+        from dvc_data.hashfile.db.local import LocalHashFileDB
+        from dvc_data.hashfile.hash_info import HashInfo
+        from dvc_data.hashfile.meta import Meta
+        from dvc_data.index import DataIndex, DataIndexEntry, ObjectStorage
+        from dvc_data.index.checkout import apply, compare
+
+        odb = LocalHashFileDB(self.fs, os.path.join(self.root, "co-cache-" + lt), type=[{"copy": "copy", "hard": "hardlink", "sym": "symlink"}[lt]])
+        h = hashlib.md5(CONTENTS[c]).hexdigest()
+        odb.add_bytes(h, CONTENTS[c])
+        key = tuple(PATHNAMES[p].split("/"))
+        idx = DataIndex()
+        idx[key] = DataIndexEntry(key=key, meta=Meta(), hash_info=HashInfo("md5", h))
+        idx.storage_map.add_cache(ObjectStorage((), odb))
+        before = os.stat(self.path(p))
+        apply(compare(None, idx), self.ws, self.fs, state=self.state, storage="cache", onerror=lambda *_a: None)
+        after = os.stat(self.path(p))
+        changed = (after.st_ino, after.st_mtime_ns, after.st_size) != (before.st_ino, before.st_mtime_ns, before.st_size)
+        if changed and self.token(p) in self.hist[p]:
+            raise AssertionError("token re-used by a checkout")
+        self.note(p)
+        return after.st_ino != before.st_ino, after.st_mtime != before.st_mtime
+
     def ident(self, alg, value):
         return self.digest[alg].get(value, "stale-or-wrong:" + str(value)[:12])
 
@@ -376,6 +401,9 @@ def run_trace(case):
                 a["ino"], a["mt"] = bool(ino), bool(mt)
             elif op == "Inject":
                 f.inject(a["p"], a["kind"])
+            elif op == "ApplyOver":
+                ino, mt = f.apply_over(a["p"], a["c"], a["lt"])
+                a["ino"], a["mt"] = bool(ino), bool(mt)
             elif op == "Snapshot":
                 f.snapshot()
             elif op == "Carry":
@@ -439,6 +467,14 @@ def directed_cases():
             q = {"op": "Query", "P": ["p"], "alg": "md5", "api": api}
             cases.append({"id": 200000 + n, "ops": [{"op": "Create", "p": "p", "c": "c1"}, {"op": "Inject", "p": "p", "kind": kind}, q, q]})
             n += 1
+    # an index checkout with the state database over a file its old index does not list, every link type
+    for lt in ("copy", "hard", "sym"):
+        for api in ("hash_file", "get_hashes", "build", "index_md5"):
+            q = {"op": "Query", "P": ["p"], "alg": "md5", "api": api}
+            for c0, c1 in (("c1", "c2"), ("c1", "c3"), ("c2", "c2")):
+                cases.append({"id": 260000 + n, "ops": [{"op": "Create", "p": "p", "c": c0}, {"op": "Create", "p": "q", "c": "c3"},
+                                                       {"op": "ApplyOver", "p": "p", "c": c1, "lt": lt, "ino": False, "mt": False}, q, q]})
+                n += 1
     # an object taken in by a store of another algorithm (sharing the state database), then looked up under md5
     for salg in ("md5-dos2unix", "sha256", "md5"):
         for c in ("c3", "c1"):
